@@ -144,12 +144,12 @@ def search(ctx):
                 out.append("C10.emit\t%s.%s\t%s" % (tgt, ctx, l))
         for l in ["5", "0x10u", "017", "2147483647", "2147483648"]:
             for ctx in ("arr", "enumv", "enumcast", "targ", "initneg", "paste", "case", "attr", "unroll", "larr", "garr", "parr",
-                        "arr2", "index", "enum2", "pattr", "caseneg"):
+                        "arr2", "index", "enum2", "pattr", "caseneg", "tdarr", "gsarr"):
                 out.append("C10.emit\t%s.%s\t%s" % (tgt, ctx, l))
         # declaration / statement forms (wave 6)
         for ctx in ("ret", "callarg", "defarg", "defarg2", "protoarg", "method", "nsinit", "arrinit", "arrinit2", "local", "localc",
                     "gvar", "binop", "tern", "ctor", "swz", "assign", "forinit", "pgvar", "plocal", "retneg", "defargneg",
-                    "arrinitneg", "callargneg"):
+                    "arrinitneg", "callargneg", "ifc", "whilec", "forstep", "plus", "comma", "swzbare"):
             for l in ["7", "0x10u", "0.1", "0.1f", "0.1h", "0.1L", "2.0", "2.0f", "1.#INF", "1.#INFf", "1e39", "3.4028235e38f",
                       "7.038530691851209e-26f", "16777217.0"]:
                 out.append("C10.emit\t%s.%s\t%s" % (tgt, ctx, l))
